@@ -448,11 +448,7 @@ Lemma flat_area_path_inv fa dur ft r0 f0 amp ro fl fo :
   flat_area_path fa dur ft r0 f0 = OK (amp, ro, fl, fo) ->
   dur = None /\ ft = Some fl /\ ~ fl == 0 /\ amp = fa / fl /\ ro = r0 /\ fo = f0.
 Proof.
-  unfold flat_area_path. destruct dur; [discriminate|].
-  destruct ft as [t|].
-  2:{ destruct r0 as [r|], f0 as [f|]; try discriminate.
-      - destruct (Qle_bool r 0 || Qle_bool f 0); discriminate.
-      - destruct (Qle_bool r 0); discriminate. }
+  unfold flat_area_path. destruct dur; [discriminate|]. destruct ft as [t|]; [|discriminate].
   destruct (isz t) eqn:Z; [discriminate|]. apply isz_false in Z.
   intro H. apply OK_inj4 in H. destruct H as (<- & <- & <- & <-). repeat split; auto.
 Qed.
@@ -465,22 +461,19 @@ Lemma amplitude_path_inv h dur ft r0 f0 S R amp ro fl fo :
   amp = h /\
   ((r0 = None /\ ro = Some (amp_chosen_rise h S R) /\ fo = Some (amp_chosen_rise h S R)) \/
    (r0 <> None /\ ro = r0 /\ fo = f0)) /\
-  ((exists d r f, dur = Some d /\ ft = None /\ ro = Some r /\ fo = Some f /\ r + f - eps <= d /\
-                  fl = Qmax (d - r - f) 0) \/
+  ((exists d r f, dur = Some d /\ ft = None /\ ro = Some r /\ fo = Some f /\ fl = d - r - f) \/
    (dur = None /\ ft = Some fl)).
 Proof.
   unfold amplitude_path. fold (amp_chosen_rise h S R).
   destruct r0 as [r0v|]; cbn beta iota zeta; destruct dur as [d|], ft as [t|]; try discriminate.
   - destruct f0 as [f|]; [|discriminate].
-    destruct (Qltb d (r0v + f - eps)) eqn:L; [discriminate|]. apply Qltb_false in L.
     intro H. apply OK_inj4 in H. destruct H as (<- & <- & <- & <-).
     split; [reflexivity|]. split; [right; split; [discriminate|split; reflexivity]|].
     left. exists d, r0v, f. repeat split; auto.
   - intro H. apply OK_inj4 in H. destruct H as (<- & <- & <- & <-).
     split; [reflexivity|]. split; [right; split; [discriminate|split; reflexivity]|].
     right. split; reflexivity.
-  - destruct (Qltb d _) eqn:L; [discriminate|]. apply Qltb_false in L.
-    intro H. apply OK_inj4 in H. destruct H as (<- & <- & <- & <-).
+  - intro H. apply OK_inj4 in H. destruct H as (<- & <- & <- & <-).
     split; [reflexivity|]. split; [left; repeat split; reflexivity|].
     left. exists d, (amp_chosen_rise h S R), (amp_chosen_rise h S R). repeat split; auto.
   - intro H. apply OK_inj4 in H. destruct H as (<- & <- & <- & <-).
@@ -490,14 +483,34 @@ Qed.
 
 (* ---------------------------------------------------------------------------------------------- *)
 (* inversion of the tail and of make_trap *)
+
+(* the clamp of rounding noise: a flat time in (-eps, 0) becomes 0, anything else is kept *)
+Definition flat_rel (fl tf : Q) : Prop :=
+  (0 <= fl /\ tf = fl) \/ (- eps < fl /\ fl < 0 /\ tf = 0).
+
+Lemma clamp_flat_spec fl : Qltb (clamp_flat fl) 0 = false -> flat_rel fl (clamp_flat fl).
+Proof.
+  unfold clamp_flat, flat_rel. destruct (Qltb (- eps) fl) eqn:A; destruct (Qltb fl 0) eqn:B; cbn [andb]; intro H.
+  - apply Qltb_lt in A, B. right. repeat split; auto.
+  - apply Qltb_false in B. left. split; auto.
+  - congruence.
+  - apply Qltb_false in B. left. split; auto.
+Qed.
+
+Lemma flat_rel_keep fl tf : flat_rel fl tf -> 0 <= fl -> tf = fl.
+Proof. intros [[_ E]|[_ [L _]]] H; [exact E|lra]. Qed.
+
+Lemma flat_rel_nonneg fl tf : flat_rel fl tf -> 0 <= tf.
+Proof. intros [[H E]|[_ [_ E]]]; rewrite E; [exact H|lra]. Qed.
+
 Lemma finish_inv amp r0 fl f0 G S R d g : finish (amp, r0, fl, f0) G S R d = OK g ->
-  t_amplitude g = amp /\ t_flat g = fl /\ t_delay g = d /\
-  t_area g = amp * (fl + t_rise g / 2 + t_fall g / 2) /\ t_flat_area g = amp * fl /\
+  t_amplitude g = amp /\ flat_rel fl (t_flat g) /\ t_delay g = d /\
+  t_area g = amp * (t_flat g + t_rise g / 2 + t_fall g / 2) /\ t_flat_area g = amp * t_flat g /\
   match r0, f0 with
   | None, None => t_rise g = shortest_rise_time amp S R /\ t_fall g = shortest_rise_time amp S R
   | _, _ => r0 = Some (t_rise g) /\ f0 = Some (t_fall g)
   end /\
-  0 < t_rise g /\ 0 < t_fall g /\ 0 <= fl /\
+  0 < t_rise g /\ 0 < t_fall g /\ 0 <= t_flat g /\
   Qabs amp <= G + eps /\ Qabs amp / t_rise g <= S * (1 + eps) /\ Qabs amp / t_fall g <= S * (1 + eps).
 Proof.
   unfold finish.
@@ -512,14 +525,19 @@ Proof.
       try (split; [exact H1|exact H2]); try discriminate.
     injection H1 as <-. injection H2 as <-. split; reflexivity. }
   destruct rf as [ro fo].
-  destruct ro as [r|]; [|discriminate].
-  destruct (Qle_bool r 0) eqn:Z1; [discriminate|]. apply Qle_bool_false in Z1.
-  destruct fo as [f|]; [|discriminate].
-  destruct (Qle_bool f 0) eqn:Z2; [discriminate|]. apply Qle_bool_false in Z2.
-  destruct (Qltb fl 0) eqn:Z3; [discriminate|]. apply Qltb_false in Z3.
   destruct (Qltb (G + eps) (Qabs amp)) eqn:C1; [discriminate|]. apply Qltb_false in C1.
-  destruct (Qltb _ (Qabs amp / r)) eqn:C2; [discriminate|]. apply Qltb_false in C2.
-  destruct (Qltb _ (Qabs amp / f)) eqn:C3; [discriminate|]. apply Qltb_false in C3.
+  destruct ro as [r|]; [|discriminate].
+  destruct (isz r); [discriminate|].
+  destruct (Qltb (S * (1 + eps)) (Qabs amp / r)) eqn:C2; [discriminate|]. apply Qltb_false in C2.
+  destruct fo as [f|]; [|discriminate].
+  destruct (isz f); [discriminate|].
+  destruct (Qltb (S * (1 + eps)) (Qabs amp / f)) eqn:C3; [discriminate|]. apply Qltb_false in C3.
+  cbv zeta.
+  destruct (Qle_bool r 0) eqn:Z1; [discriminate|]. apply Qle_bool_false in Z1.
+  destruct (Qle_bool f 0) eqn:Z2; [discriminate|]. apply Qle_bool_false in Z2.
+  cbn [orb].
+  destruct (Qltb (clamp_flat fl) 0) eqn:Z3; [discriminate|].
+  pose proof (clamp_flat_spec fl Z3) as FR. apply Qltb_false in Z3.
   intro H. injection H as <-. cbn [t_amplitude t_rise t_flat t_fall t_area t_flat_area t_delay].
   specialize (RF r f eq_refl). repeat split; auto.
 Qed.
@@ -564,7 +582,7 @@ Ltac trap_start H :=
   apply make_trap_inv in H;
   destruct H as (HG & HS & HR & [[[amp ro] fl] fo] & HP & HF);
   apply finish_inv in HF;
-  destruct HF as (Eamp & Efl & Edel & Earea & Efa & Hrf & Hrp & Hfp & Hflp & Lg & Lr & Lf).
+  destruct HF as (Eamp & Hflat & Edel & Earea & Efa & Hrf & Hrp & Hfp & Hflp & Lg & Lr & Lf).
 
 Lemma ramps_of_some (ro fo : option Q) (r f : Q) (X Y : Prop) (gr gf : Q) :
   ro = Some r -> fo = Some f ->
@@ -610,6 +628,52 @@ Proof.
   destruct (a_amplitude a) as [h|]; [right; right; eexists; reflexivity|discriminate].
 Qed.
 
+Lemma raster_mult_nonneg (m : Z) R x : 0 < R -> (0 <= m)%Z -> x == inject_Z m * R -> 0 <= x.
+Proof.
+  intros HR Hm E. rewrite E. apply Qmult_le_0_compat; [|lra].
+  change 0 with (inject_Z 0). rewrite <- Zle_Qle. exact Hm.
+Qed.
+
+(* the flat time computed by the area path is never negative (requested ones aside): this is where the
+   plateau branch of the shortest-parameter routine needs its nonlinear argument *)
+Lemma area_path_flat_nonneg A dur ft r0 f0 G S R amp ro fl fo : 0 < S -> 0 < G -> 0 < R ->
+  area_path A dur ft r0 f0 G S R = OK (amp, ro, fl, fo) ->
+  (forall t, ft = Some t -> 0 <= t) -> 0 <= fl.
+Proof.
+  intros HS HG HR HP Hreq. apply area_path_inv in HP.
+  destruct HP as [(d' & a' & r & fls & f & _ & _ & _ & SP & Hmin & -> & _)
+                 |[(d' & r & f & _ & _ & _ & _ & _ & Hle & -> & _)
+                 |[(t' & r & f & Ct & _ & _ & -> & _)
+                 |(r & f & _ & _ & SP & _)]]].
+  - destruct (shortest_spec A _ _ _ HS HG HR _ _ _ _ SP) as (_ & _ & (m & Hm & Em) & _).
+    pose proof (raster_mult_nonneg m R fls HR Hm Em). lra.
+  - lra.
+  - apply Hreq. exact Ct.
+  - destruct (shortest_spec A _ _ _ HS HG HR _ _ _ _ SP) as (_ & _ & (m & Hm & Em) & _).
+    exact (raster_mult_nonneg m R fl HR Hm Em).
+Qed.
+
+(* whenever flat_time is requested, every path passes it on unchanged *)
+Lemma path_flat_requested a amp ro fl fo t : path_of a = OK (amp, ro, fl, fo) ->
+  a_flat_time a = Some t -> fl = t.
+Proof.
+  intros HP Ht.
+  destruct (path_cases a _ HP) as [[A HA]|[[FA HA]|[h HA]]].
+  - destruct (path_area a A _ HA HP) as (HP' & _ & _). apply area_path_inv in HP'.
+    destruct HP' as [(d & a' & r & fls & f & _ & C & _)
+                   |[(d & r & f & _ & C & _)
+                   |[(t' & r & f & C & _ & _ & -> & _)
+                   |(r & f & _ & C & _)]]]; rewrite Ht in C; try discriminate.
+    injection C as ->. reflexivity.
+  - destruct (path_flat_area a FA _ HA HP) as (HP' & _ & _). apply flat_area_path_inv in HP'.
+    destruct HP' as (_ & C & _). rewrite Ht in C. injection C as ->. reflexivity.
+  - destruct (path_amplitude a h _ HA HP) as (HP' & _ & _). apply amplitude_path_inv in HP'.
+    destruct HP' as (_ & _ & [(d & r & f & _ & C & _)|(_ & C)]); rewrite Ht in C; [discriminate|].
+    injection C as ->. reflexivity.
+Qed.
+
+Definition flat_request_nonneg (a : targs) : Prop := forall t, a_flat_time a = Some t -> 0 <= t.
+
 Lemma div_den A r f fl : ~ r / 2 + f / 2 + fl == 0 ->
   A / (r / 2 + f / 2 + fl) * (r / 2 + fl + f / 2) == A.
 Proof.
@@ -618,11 +682,13 @@ Proof.
 Qed.
 
 (* requested area *)
-Lemma trap_area_exact_l a g A : make_trap a = OK g -> a_area a = Some A ->
+Lemma trap_area_exact_l a g A : make_trap a = OK g -> a_area a = Some A -> flat_request_nonneg a ->
   t_amplitude g * (t_rise g / 2 + t_flat g + t_fall g / 2) == A.
 Proof.
-  intros H HA. trap_start H. destruct (path_area a A _ HA HP) as (HP' & _ & _).
-  apply area_path_inv in HP'. rewrite Eamp, Efl.
+  intros H HA Hreq. trap_start H. destruct (path_area a A _ HA HP) as (HP' & _ & _).
+  pose proof (area_path_flat_nonneg _ _ _ _ _ _ _ _ _ _ _ _ HS HG HR HP' Hreq) as Hfl0.
+  rewrite (flat_rel_keep _ _ Hflat Hfl0).
+  apply area_path_inv in HP'. rewrite Eamp.
   destruct HP' as [(d & a' & r & fls & f & _ & _ & _ & _ & _ & _ & Hden & -> & Hro & Hfo)
                  |[(d & r & f & _ & _ & _ & _ & _ & _ & _ & Hden & -> & Hro & Hfo)
                  |[(t & r & f & _ & _ & _ & -> & Hden & -> & Hro & Hfo)
@@ -637,11 +703,12 @@ Qed.
 
 (* requested flat area *)
 Lemma trap_flat_area_exact_l a g FA : make_trap a = OK g -> a_flat_area a = Some FA ->
-  t_amplitude g * t_flat g == FA.
+  flat_request_nonneg a -> t_amplitude g * t_flat g == FA.
 Proof.
-  intros H HA. trap_start H. destruct (path_flat_area a FA _ HA HP) as (HP' & _ & _).
-  apply flat_area_path_inv in HP'. destruct HP' as (_ & _ & Hnz & -> & _ & _).
-  rewrite Eamp, Efl. field. exact Hnz.
+  intros H HA Hreq. trap_start H. destruct (path_flat_area a FA _ HA HP) as (HP' & _ & _).
+  apply flat_area_path_inv in HP'. destruct HP' as (_ & Hft & Hnz & -> & _ & _).
+  rewrite (flat_rel_keep _ _ Hflat (Hreq _ Hft)).
+  rewrite Eamp. field. exact Hnz.
 Qed.
 
 (* requested amplitude *)
@@ -656,7 +723,7 @@ Lemma trap_area_field_l a g : make_trap a = OK g ->
   t_area g = t_amplitude g * (t_flat g + t_rise g / 2 + t_fall g / 2) /\
   t_flat_area g = t_amplitude g * t_flat g.
 Proof.
-  intros H. trap_start H. rewrite Eamp, Efl. split; assumption.
+  intros H. trap_start H. rewrite Eamp. split; assumption.
 Qed.
 
 (* effective limits, up to the code's slack *)
@@ -672,59 +739,61 @@ Qed.
 (* well-formed timing of every returned event *)
 Lemma trap_wellformed_l a g : make_trap a = OK g -> 0 < t_rise g /\ 0 <= t_flat g /\ 0 < t_fall g.
 Proof.
-  intros H. trap_start H. rewrite Efl. repeat split; assumption.
+  intros H. trap_start H. repeat split; assumption.
 Qed.
+
+Lemma trap_flat_nonneg_l a g : make_trap a = OK g -> 0 <= t_flat g.
+Proof. intro H. apply (trap_wellformed_l a g H). Qed.
 
 Lemma trap_delay_l a g : make_trap a = OK g -> t_delay g = opt_default (a_delay a) trap_default_delay.
 Proof. intros H. trap_start H. exact Edel. Qed.
 
 (* ---- requested timing ------------------------------------------------------------------------- *)
-Lemma trap_flat_time_l a g t : make_trap a = OK g -> a_flat_time a = Some t -> t_flat g = t.
+Lemma trap_flat_time_l a g t : make_trap a = OK g -> a_flat_time a = Some t ->
+  (0 <= t /\ t_flat g = t) \/ (- eps < t /\ t < 0 /\ t_flat g = 0).
 Proof.
-  intros H Ht. trap_start H. rewrite Efl.
+  intros H Ht. trap_start H. rewrite (path_flat_requested a _ _ _ _ t HP Ht) in Hflat. exact Hflat.
+Qed.
+
+(* with a requested duration (and no flat_time) every path sets flat_time = duration - rise - fall *)
+Lemma path_duration a amp ro fl fo d : path_of a = OK (amp, ro, fl, fo) ->
+  0 < eff_max_grad a -> 0 < eff_max_slew a -> 0 < raster_of a ->
+  a_duration a = Some d -> a_flat_time a = None ->
+  exists r f, ro = Some r /\ fo = Some f /\ fl = d - r - f /\ (a_amplitude a = None -> 0 <= fl).
+Proof.
+  intros HP HG HS HR Hd Hft.
   destruct (path_cases a _ HP) as [[A HA]|[[FA HA]|[h HA]]].
-  - destruct (path_area a A _ HA HP) as (HP' & _ & _). apply area_path_inv in HP'.
-    destruct HP' as [(d & a' & r & fls & f & _ & C & _)
-                   |[(d & r & f & _ & C & _)
-                   |[(t' & r & f & C & _ & _ & -> & _)
-                   |(r & f & _ & C & _)]]]; rewrite Ht in C; try discriminate.
-    injection C as ->. reflexivity.
+  - destruct (path_area a A _ HA HP) as (HP' & _ & _).
+    apply area_path_inv in HP'.
+    destruct HP' as [(d' & a' & r & fls & f & Cd & _ & _ & SP & Hmin & -> & _ & _ & Hro & Hfo)
+                   |[(d' & r & f & Cd & _ & _ & _ & _ & Hle & -> & _ & _ & Hro & Hfo)
+                   |[(t' & r & f & C & _)
+                   |(r & f & C & _)]]].
+    + rewrite Hd in Cd. injection Cd as <-. exists r, f. repeat split; auto. intros _.
+      destruct (shortest_spec A _ _ _ HS HG HR _ _ _ _ SP) as (_ & _ & (m & Hm & Em) & _).
+      pose proof (raster_mult_nonneg m _ fls HR Hm Em). lra.
+    + rewrite Hd in Cd. injection Cd as <-. exists r, f. repeat split; auto. intros _. lra.
+    + rewrite Hft in C. discriminate.
+    + rewrite Hd in C. discriminate.
   - destruct (path_flat_area a FA _ HA HP) as (HP' & _ & _). apply flat_area_path_inv in HP'.
-    destruct HP' as (_ & C & _). rewrite Ht in C. injection C as ->. reflexivity.
+    destruct HP' as (C & _). rewrite Hd in C. discriminate.
   - destruct (path_amplitude a h _ HA HP) as (HP' & _ & _). apply amplitude_path_inv in HP'.
-    destruct HP' as (_ & _ & [(d & r & f & _ & C & _)|(_ & C)]); rewrite Ht in C; [discriminate|].
-    injection C as ->. reflexivity.
+    destruct HP' as (_ & _ & [(d' & r & f & Cd & _ & Hro & Hfo & ->)|(C & _)]);
+      [|rewrite Hd in C; discriminate].
+    rewrite Hd in Cd. injection Cd as <-. exists r, f. repeat split; auto.
+    intro C. rewrite HA in C. discriminate.
 Qed.
 
 Lemma trap_duration_l a g d : make_trap a = OK g -> a_duration a = Some d -> a_flat_time a = None ->
   d <= t_rise g + t_flat g + t_fall g /\ t_rise g + t_flat g + t_fall g <= d + eps /\
   (a_amplitude a = None \/ t_rise g + t_fall g <= d -> t_rise g + t_flat g + t_fall g == d).
 Proof.
-  intros H Hd Hft. trap_start H. rewrite Efl. pose proof eps_nonneg as He.
-  destruct (path_cases a _ HP) as [[A HA]|[[FA HA]|[h HA]]].
-  - destruct (path_area a A _ HA HP) as (HP' & _ & _). apply area_path_inv in HP'.
-    destruct HP' as [(d' & a' & r & fls & f & Cd & _ & _ & _ & _ & -> & _ & _ & Hro & Hfo)
-                   |[(d' & r & f & Cd & _ & _ & _ & _ & _ & -> & _ & _ & Hro & Hfo)
-                   |[(t' & r & f & C & _)
-                   |(r & f & C & _)]]].
-    + rewrite Hd in Cd. injection Cd as <-.
-      destruct (ramps_of_some _ _ _ _ _ _ _ _ Hro Hfo Hrf) as [-> ->].
-      repeat split; try lra; try (intros _; ring).
-    + rewrite Hd in Cd. injection Cd as <-.
-      destruct (ramps_of_some _ _ _ _ _ _ _ _ Hro Hfo Hrf) as [-> ->].
-      repeat split; try lra; try (intros _; ring).
-    + rewrite Hft in C. discriminate.
-    + rewrite Hd in C. discriminate.
-  - destruct (path_flat_area a FA _ HA HP) as (HP' & _ & _). apply flat_area_path_inv in HP'.
-    destruct HP' as (C & _). rewrite Hd in C. discriminate.
-  - destruct (path_amplitude a h _ HA HP) as (HP' & _ & _). apply amplitude_path_inv in HP'.
-    destruct HP' as (_ & _ & [(d' & r & f & Cd & _ & Hro & Hfo & Hle & ->)|(C & _)]);
-      [|rewrite Hd in C; discriminate].
-    rewrite Hd in Cd. injection Cd as <-.
-    destruct (ramps_of_some _ _ _ _ _ _ _ _ Hro Hfo Hrf) as [-> ->].
-    destruct (Qmax_spec (d - r - f) 0) as [[L E]|[L E]]; rewrite E.
-    + split; [lra|]. split; [lra|]. intros [C|C]; [rewrite HA in C; discriminate|]. lra.
-    + split; [lra|]. split; [lra|]. intros _. ring.
+  intros H Hd Hft. trap_start H. pose proof eps_nonneg as He.
+  destruct (path_duration a _ _ _ _ d HP HG HS HR Hd Hft) as (r & f & Hro & Hfo & Efl & Hnn).
+  destruct (ramps_of_some _ _ _ _ _ _ _ _ Hro Hfo Hrf) as [-> ->].
+  destruct Hflat as [[F0 E]|[F1 [F2 E]]]; rewrite E; clear E; subst fl.
+  - split; [lra|]. split; [lra|]. intros _. ring.
+  - split; [lra|]. split; [lra|]. intros [C|C]; [specialize (Hnn C); lra|lra].
 Qed.
 
 Definition supplied_timing (a : targs) : Prop :=
@@ -764,7 +833,8 @@ Proof.
 Qed.
 
 Lemma trap_timing_as_requested_l a g : make_trap a = OK g ->
-  (forall t, a_flat_time a = Some t -> t_flat g = t) /\
+  (forall t, a_flat_time a = Some t ->
+     (0 <= t /\ t_flat g = t) \/ (- eps < t /\ t < 0 /\ t_flat g = 0)) /\
   (forall d, a_duration a = Some d -> a_flat_time a = None ->
      d <= t_rise g + t_flat g + t_fall g /\ t_rise g + t_flat g + t_fall g <= d + eps /\
      (a_amplitude a = None \/ t_rise g + t_fall g <= d -> t_rise g + t_flat g + t_fall g == d)) /\
@@ -846,19 +916,17 @@ Lemma trap_area_only_flat_raster_l a g A : make_trap a = OK g ->
   a_area a = Some A -> a_duration a = None -> a_flat_time a = None ->
   exists m, (0 <= m)%Z /\ t_flat g == inject_Z m * raster_of a.
 Proof.
-  intros H HA Hd Hft. trap_start H. rewrite Efl.
+  intros H HA Hd Hft. trap_start H.
   destruct (path_area a A _ HA HP) as (HP' & _ & _). apply area_path_inv in HP'.
   destruct HP' as [(d' & a' & r & fls & f & C & _)
                  |[(d' & r & f & C & _)
                  |[(t' & r & f & C & _)
                  |(r & f & _ & _ & SP & Hro & Hfo)]]];
     try (rewrite Hd in C; discriminate); try (rewrite Hft in C; discriminate).
-  destruct (shortest_spec A _ _ _ HS HG HR _ _ _ _ SP) as (_ & _ & Hm & _). exact Hm.
+  destruct (shortest_spec A _ _ _ HS HG HR _ _ _ _ SP) as (_ & _ & (m & Hm & Em) & _).
+  rewrite (flat_rel_keep _ _ Hflat (raster_mult_nonneg m _ fl HR Hm Em)).
+  exists m. split; assumption.
 Qed.
-
-(* ---- the flat time is never negative ---------------------------------------------------------- *)
-Lemma trap_flat_nonneg_l a g : make_trap a = OK g -> 0 <= t_flat g.
-Proof. intro H. apply (trap_wellformed_l a g H). Qed.
 
 (* ---- area-only request: at most two rasters above ANY continuous-time trapezoid within the limits *)
 Lemma trap_near_optimal_l a g A : make_trap a = OK g ->
@@ -869,7 +937,7 @@ Lemma trap_near_optimal_l a g A : make_trap a = OK g ->
     c * (rc / 2 + fc + flc / 2) == A ->
     t_rise g + t_flat g + t_fall g <= rc + fc + flc + 2 * raster_of a.
 Proof.
-  intros H HA Hd Hft c rc fc flc Hrc Hflc Hfc Hcg Hcr Hcf Harea. trap_start H. rewrite Efl.
+  intros H HA Hd Hft c rc fc flc Hrc Hflc Hfc Hcg Hcr Hcf Harea. trap_start H.
   destruct (path_area a A _ HA HP) as (HP' & _ & _). apply area_path_inv in HP'.
   destruct HP' as [(d' & a' & r & fls & f & C & _)
                  |[(d' & r & f & C & _)
@@ -877,7 +945,8 @@ Proof.
                  |(r & f & _ & _ & SP & Hro & Hfo)]]];
     try (rewrite Hd in C; discriminate); try (rewrite Hft in C; discriminate).
   destruct (ramps_of_some _ _ _ _ _ _ _ _ Hro Hfo Hrf) as [-> ->].
-  destruct (shortest_spec A _ _ _ HS HG HR _ _ _ _ SP) as (_ & _ & _ & _ & Hopt & _).
+  destruct (shortest_spec A _ _ _ HS HG HR _ _ _ _ SP) as (_ & _ & (m & Hm & Em) & _ & Hopt & _).
+  rewrite (flat_rel_keep _ _ Hflat (raster_mult_nonneg m _ fl HR Hm Em)).
   set (T := rc / 2 + fc + flc / 2) in *.
   assert (HT : 0 < T) by (unfold T; rewrite !Qhalf_mul; lra).
   assert (EA : Qabs A == Qabs c * T).
@@ -937,7 +1006,7 @@ Definition err_is {A} (r : tresult A) (e : trap_err) : bool :=
   match r with
   | OK _ => false
   | Err e' => match e, e' with
-              | E_dur_short_amp, E_dur_short_amp | E_min_duration, E_min_duration
+              | E_min_duration, E_min_duration
               | E_not_possible, E_not_possible | E_amp, E_amp | E_slew_rise, E_slew_rise
               | E_slew_fall, E_slew_fall | E_unbound, E_unbound | E_timing, E_timing => true
               | _, _ => false end
@@ -945,7 +1014,7 @@ Definition err_is {A} (r : tresult A) (e : trap_err) : bool :=
 
 (* ---- an area-only request on a system with positive limits always returns an event: the shortest-
    parameter routine never produces a negative flat time (plateau branch: nonlinear argument in
-   [shortest_spec]) and its amplitude and ramps pass the limit checks ------------------------------- *)
+   [shortest_spec]) and its amplitude and ramps pass the limit and timing checks --------------------- *)
 Lemma trap_area_only_total_l a A : a_channel_ok a = true -> a_area a = Some A ->
   a_flat_area a = None -> a_amplitude a = None -> a_duration a = None -> a_flat_time a = None ->
   0 < eff_max_grad a -> 0 < eff_max_slew a -> 0 < raster_of a ->
@@ -962,20 +1031,24 @@ Proof.
   subst f. unfold finish.
   assert (Hr : 0 < r).
   { rewrite Ek. apply Qmult_lt_0_compat; [|exact HR]. change 0 with (inject_Z 0). rewrite <- Zlt_Qlt. lia. }
-  assert (Hfl : 0 <= fl).
-  { rewrite Em. apply Qmult_le_0_compat; [|lra]. change 0 with (inject_Z 0). rewrite <- Zle_Qle. exact Hm. }
+  pose proof (raster_mult_nonneg m _ fl HR Hm Em) as Hfl.
   pose proof eps_nonneg as He.
   assert (Ls' : Qabs amp / r <= eff_max_slew a * (1 + eps)).
   { eapply Qle_trans; [exact Ls|]. rewrite <- (Qmult_1_r (eff_max_slew a)) at 1.
     rewrite (Qmult_comm (eff_max_slew a) 1), (Qmult_comm (eff_max_slew a) (1 + eps)).
     apply Qmult_le_compat_r; lra. }
+  assert (B0 : isz r = false).
+  { destruct (isz r) eqn:E; [|reflexivity]. apply isz_true in E. lra. }
   assert (B1 : Qle_bool r 0 = false).
   { destruct (Qle_bool r 0) eqn:E; [|reflexivity]. apply Qle_bool_iff in E. lra. }
-  assert (B2 : Qltb fl 0 = false).
+  assert (B2 : clamp_flat fl = fl).
+  { unfold clamp_flat. destruct (Qltb fl 0) eqn:E; [apply Qltb_lt in E; lra|].
+    rewrite andb_false_r. reflexivity. }
+  assert (B2' : Qltb fl 0 = false).
   { destruct (Qltb fl 0) eqn:E; [|reflexivity]. apply Qltb_lt in E. lra. }
   assert (B3 : Qltb (eff_max_grad a + eps) (Qabs amp) = false).
   { destruct (Qltb (eff_max_grad a + eps) (Qabs amp)) eqn:E; [|reflexivity]. apply Qltb_lt in E. lra. }
   assert (B4 : Qltb (eff_max_slew a * (1 + eps)) (Qabs amp / r) = false).
   { destruct (Qltb (eff_max_slew a * (1 + eps)) (Qabs amp / r)) eqn:E; [|reflexivity]. apply Qltb_lt in E. lra. }
-  rewrite B1, B2, B3, B4. eexists. reflexivity.
+  rewrite B3, B0, B4. cbv zeta. rewrite B2, B1, B2'. cbn [orb]. eexists. reflexivity.
 Qed.
